@@ -56,6 +56,11 @@ template<class T> static void fill(T& x, const Tok& t, std::size_t& pos) { x = p
 template<class T, std::size_t S, std::size_t A>
 static void fill(LoopSIMD<T,S,A>& v, const Tok& t, std::size_t& pos) { for (std::size_t i = 0; i < S; ++i) fill(v[i], t, pos); }
 
+// reference to flat lane k in memory order (std::array::operator[] only)
+template<class X> static X& laneref(X& x, std::size_t) { return x; }
+template<class T, std::size_t S, std::size_t A>
+static auto& laneref(LoopSIMD<T,S,A>& v, std::size_t k) { constexpr std::size_t inner = Simd::lanes<T>(); return laneref(v[k / inner], k % inner); }
+
 template<class V> struct IsLoop : std::false_type {};
 template<class T, std::size_t S, std::size_t A> struct IsLoop<LoopSIMD<T,S,A>> : std::true_type {};
 
@@ -72,7 +77,8 @@ static std::string run(const Tok& t)
   constexpr bool isfp = std::is_floating_point_v<T>;
   constexpr bool isbool = std::is_same_v<T,bool>;
   constexpr bool nested = []{ if constexpr (IsLoop<V>::value) return IsLoop<typename V::value_type>::value; else return false; }();
-  const std::string& form = t.at(5);
+  std::string form = t.at(5); int k = 0;           // aliasing forms carry the aliased lane: avsk:<k> ...
+  { auto c = form.find(':'); if (c != std::string::npos) { k = std::stoi(form.substr(c + 1)); form = form.substr(0, c); } }
   const std::string& name = t.at(6);
   std::size_t pos = 7;
   if (form == "traits") { if constexpr (simd) return c09_traits_line<V>(); else return "N/A"; }
@@ -84,6 +90,9 @@ static std::string run(const Tok& t)
     V2 u{}; fill(u, t, pos); fill(a, t, (pos = 7));
     if constexpr (simd) { V r = Simd::implCast<V>(u); return show(r); } else return "N/A";
   }
+  else if (form == "avsk" || form == "avsl" || form == "vsk" || form == "vsl" || form == "svk" || form == "vvself" || form == "avvself") fill(a, t, pos);
+  else if (form == "condself" || form == "condsame") { fill(m, t, pos); fill(b, t, pos); fill(c, t, pos); }
+  else if (form == "condmask") { fill(b, t, pos); fill(c, t, pos); }
   else if (form == "vv" || form == "avv" || form == "mor" || form == "mand") { fill(a, t, pos); fill(b, t, pos); }
   else if (form == "vs" || form == "avs") { fill(a, t, pos); if (shift) cnt = std::stoi(t.at(pos++)); else fill(sb, t, pos); }
   else if (form == "sv") { fill(sa, t, pos); fill(b, t, pos); }
@@ -97,6 +106,10 @@ static std::string run(const Tok& t)
   // ---- interface functions
   if (form == "cond") { V r = Simd::cond(m, b, c); return show(r) + unchanged(true); }
   if (form == "condb") { V r = Simd::cond(sbool, b, c); return show(r) + unchanged(true); }
+  // aliased arguments of cond
+  if (form == "condself") { b = Simd::cond(m, b, c); return show(b); }
+  if (form == "condsame") { V r = Simd::cond(m, b, b); return show(r) + unchanged(true); }
+  if (form == "condmask") { if constexpr (isbool && simd) { b = Simd::cond(b, b, c); return show(b); } else return "N/A"; }
   if (form == "bcast") {
     if constexpr (simd) { V r = Simd::broadcast<V>(sa); V r2(sa); return show(r) + (std::memcmp(&r, &r2, sizeof(T) * Simd::lanes<V>()) ? " (ctor differs)" : ""); }
     else return show(sa);
@@ -143,7 +156,11 @@ static std::string run(const Tok& t)
     if (form == "vv") { RES r = a SYM b; return show(r) + unchanged(true); } \
     if constexpr (simd) { \
       if (form == "vs") { RES r = a SYM sb; return show(r) + unchanged(true); } \
-      if constexpr (SVOK) { if (form == "sv") { RES r = sa SYM b; return show(r) + unchanged(true); } } } \
+      if (form == "vsk") { RES r = a SYM laneref(a, k); return show(r) + unchanged(true); } \
+      if (form == "vsl") { RES r = a SYM Simd::lane(k, a); return show(r) + unchanged(true); } \
+      if (form == "vvself") { RES r = a SYM a; return show(r) + unchanged(true); } \
+      if constexpr (SVOK) { if (form == "sv") { RES r = sa SYM b; return show(r) + unchanged(true); } \
+                            if (form == "svk") { RES r = laneref(a, k) SYM a; return show(r) + unchanged(true); } } } \
   } else return "N/A"; }
   C09_BIN("add", +, V, !isbool)
   C09_BIN("sub", -, V, !isbool)
@@ -171,7 +188,12 @@ static std::string run(const Tok& t)
     if (form == "vv") { V r = a SYM b; return show(r) + unchanged(true); } \
     if (form == "vs") { V r = a SYM cnt; return show(r) + unchanged(true); } \
     if (form == "avv") { V r = (a SYM##= b); return show(r) + " ; " + show(a) + unchanged(false); } \
-    if constexpr (simd) { if (form == "avs") { V r = (a SYM##= T(cnt)); return show(r) + " ; " + show(a); } } \
+    if constexpr (simd) { if (form == "avs") { V r = (a SYM##= T(cnt)); return show(r) + " ; " + show(a); } \
+      if (form == "avsk") { V r = (a SYM##= laneref(a, k)); return show(r) + " ; " + show(a); } \
+      if (form == "avsl") { V r = (a SYM##= Simd::lane(k, a)); return show(r) + " ; " + show(a); } \
+      if (form == "vsk") { V r = a SYM laneref(a, k); return show(r) + unchanged(true); } \
+      if (form == "vvself") { V r = a SYM a; return show(r) + unchanged(true); } \
+      if (form == "avvself") { V r = (a SYM##= a); return show(r) + " ; " + show(a); } } \
   } else return "N/A"; }
   C09_SHIFT("shl", <<)
   C09_SHIFT("shr", >>)
@@ -180,7 +202,10 @@ static std::string run(const Tok& t)
 #define C09_ASSIGN(NAME, SYM, COND) \
   if (name == NAME) { if constexpr (COND) { \
     if (form == "avv") { V r = (a SYM b); return show(r) + " ; " + show(a) + unchanged(false); } \
-    if constexpr (simd) { if (form == "avs") { V r = (a SYM sb); return show(r) + " ; " + show(a); } } \
+    if constexpr (simd) { if (form == "avs") { V r = (a SYM sb); return show(r) + " ; " + show(a); } \
+      if (form == "avsk") { V r = (a SYM laneref(a, k)); return show(r) + " ; " + show(a); } \
+      if (form == "avsl") { V r = (a SYM Simd::lane(k, a)); return show(r) + " ; " + show(a); } \
+      if (form == "avvself") { V r = (a SYM a); return show(r) + " ; " + show(a); } } \
   } else return "N/A"; }
   C09_ASSIGN("add", +=, !isbool)
   C09_ASSIGN("sub", -=, !isbool)
